@@ -96,7 +96,7 @@ for _nm, _fn, _file, _ps, _psd, _tree, _dim, _img in (
       assumptions=[NOFAIL, "attribute keys are identifiers (parse_attributes / scanners out of reach), hence not tainted", "configuration -DI18N_DISABLED"])
 
 for _k, _kn in enumerate(["uuid", "title", "author", "language", "date"]):
-    U("taint_epub_package_" + _kn, ["C08"], "h_taint_epub", ["C08/taint_epub.c"], ["epub.c"], plain=True, lib=(), kind="bounded",
+    U("taint_epub_package_" + _kn, ["C08", "C09"], "h_taint_epub", ["C08/taint_epub.c"], ["epub.c"], plain=True, lib=(), kind="bounded",
       defines=["-DI18N_DISABLED=1", "-DTAINT_KEY=%d" % _k], cbmc_flags=["--unwind", "40", "--unwindset", "d_string_append_printf.0:92", "--unwinding-assertions", "--object-bits", "12"],
       bounds={"metadata": "the one key '%s' present" % _kn, "value": "any (2 bytes; the obligation does not depend on content)"},
       functions=["epub_package_document"],
